@@ -3,7 +3,7 @@
 -/
 import StathamModel.Py.EvalTree
 import StathamModel.Lemmas.EvalLeaf
-namespace Statham
+namespace Statham.PyEval
 
 theorem setArg_lit (s : St) (n : String) (v : JVal) :
     setArg s n (.lit v) = (setLit s.kw n (.lit v)).map fun kw => { s with kw := kw } := by
@@ -91,7 +91,7 @@ def evalO (env : String → Option Elem) : Option PyExpr → Option (Option PyVa
   | some x => (evalV env x).map some
 
 /-- the rendered sub-elements evaluate to the sub-elements -/
-structure KidsRel (env : String → Option Elem) (rk : ReprKids) (t : St) : Prop where
+structure EvalKids (env : String → Option Elem) (rk : ReprKids) (t : St) : Prop where
   items : evalVs env rk.items = some (t.items.map PyVal.elem)
   addItems : evalO env rk.addItems = some (t.addItems.map PyVal.elem)
   contains : evalO env rk.contains = some (t.contains.map PyVal.elem)
@@ -144,7 +144,7 @@ theorem evalVs_head (env) (xs : List PyExpr) (es : List Elem) (h : evalVs env xs
           simp only [List.map_cons, List.cons.injEq] at h
           simp [evalO, hx, h.1]
 
-theorem evalO_kwExpr (env) (rk : ReprKids) (t : St) (h : KidsRel env rk t) (name : String) :
+theorem evalO_kwExpr (env) (rk : ReprKids) (t : St) (h : EvalKids env rk t) (name : String) :
     evalO env (kwExpr t.kw rk name) = some (kwVal t name) := by
   unfold kwExpr kwVal
   split
@@ -184,7 +184,7 @@ theorem evalO_kwExpr (env) (rk : ReprKids) (t : St) (h : KidsRel env rk t) (name
 def kwargsValOf (sig : List Gen.Param) (t : St) : List (String × PyVal) :=
   (sig.filter fun p => p.kind == .keywordOnly).filterMap fun p => (kwVal t p.name).map fun v => (p.name, v)
 
-theorem evalKVs_filterMap (env) (rk : ReprKids) (t : St) (h : KidsRel env rk t) (L : List Gen.Param) :
+theorem evalKVs_filterMap (env) (rk : ReprKids) (t : St) (h : EvalKids env rk t) (L : List Gen.Param) :
     evalKVs env (L.filterMap fun p => (kwExpr t.kw rk p.name).map fun e => (p.name, e)) =
       some (L.filterMap fun p => (kwVal t p.name).map fun v => (p.name, v)) := by
   induction L with
@@ -207,7 +207,7 @@ theorem evalKVs_filterMap (env) (rk : ReprKids) (t : St) (h : KidsRel env rk t) 
         simp only [hv, Option.map_some, Option.some.injEq] at hk
         simp only [Option.map_some, ← hk, evalKVs, hv, ih]
 
-theorem evalKVs_kwargsOf (env) (rk : ReprKids) (t : St) (h : KidsRel env rk t) (sig : List Gen.Param) :
+theorem evalKVs_kwargsOf (env) (rk : ReprKids) (t : St) (h : EvalKids env rk t) (sig : List Gen.Param) :
     evalKVs env (kwargsOf sig t.kw rk) = some (kwargsValOf sig t) :=
   evalKVs_filterMap env rk t h _
 
@@ -641,7 +641,7 @@ theorem positional_array (t : St) (hs : t.kw.itemsKind = .single → ∃ x, t.it
   | none => rw [(h.1 hk)]; rfl
   | some v => exact h.2 v hk
 
-theorem evalVs_items_arg (env) (rk : ReprKids) (t : St) (hk : KidsRel env rk t) :
+theorem evalVs_items_arg (env) (rk : ReprKids) (t : St) (hk : EvalKids env rk t) :
     evalVs env [(kwExpr t.kw rk "items").getD (.name "NotPassed")] = some [(kwVal t "items").getD .notPassed] := by
   have h := evalO_kwExpr env rk t hk "items"
   cases hx : kwExpr t.kw rk "items" with
@@ -660,7 +660,7 @@ theorem evalVs_items_arg (env) (rk : ReprKids) (t : St) (hk : KidsRel env rk t) 
       rw [← h]
       simp [evalVs, hv]
 
-theorem eval_core (env) (c : Cls) (t : St) (rk : ReprKids) (hc : ∀ n, c ≠ .object n) (hk : KidsRel env rk t)
+theorem eval_core (env) (c : Cls) (t : St) (rk : ReprKids) (hc : ∀ n, c ≠ .object n) (hk : EvalKids env rk t)
     (ok : NodeOK c t) :
     evalV env (reprCore c t.kw rk) = some (.elem (t.toElem c)) := by
   have hkw := fun sig => evalKVs_kwargsOf env rk t hk sig
@@ -791,7 +791,7 @@ theorem eval_repr (env) : ∀ (e : Elem), WF env e → evalV env (reprExpr e) = 
       obtain ⟨hn, henv⟩ := hobj n rfl
       simp [reprCore, evalV, hn, henv]
     · have hc'' : ∀ n, c ≠ .object n := fun n hn => hc' ⟨n, hn⟩
-      have hk : KidsRel env
+      have hk : EvalKids env
           { items := reprList items, addItems := reprOpt addI, contains := reprOpt cont, props := reprKeyed props,
             patProps := reprKeyed pats, addProps := reprOpt addP, propNames := reprOpt pn, deps := reprKeyed deps,
             elements := reprList els }
@@ -837,4 +837,4 @@ theorem eval_reprDeps (env) : ∀ (l : List (Key × Elem)), WFK env l →
     | some l => simp only [evalV, ih]
 end
 
-end Statham
+end Statham.PyEval
